@@ -251,6 +251,15 @@ class Report:
     self.cov = {"evaluations": 0, "distinct_nontrivial": 0, "rule": "", "samples": []}
     self.assumptions = []
     self._distinct = set()
+    # stale replays of earlier runs of this property are removed; this run rewrites its own
+    rdir = os.path.join(VERIF, "replays")
+    if "--replay" not in sys.argv:
+      for f in os.listdir(rdir):
+        if f.startswith(prop + "_"):
+          try:
+            os.remove(os.path.join(rdir, f))
+          except OSError:
+            pass
 
   # --- coverage bookkeeping
   def count(self, key, nontrivial=True):
